@@ -110,6 +110,21 @@ class Hierarchy:
         return out or [t]
 
 
+def decide_nonnull(test: ast.AST, nonnull: frozenset[str]) -> bool | None:
+    """Truth of `p is None` / `p is not None` (possibly negated) when parameter p is known not to be None."""
+    if isinstance(test, ast.UnaryOp) and isinstance(test.op, ast.Not):
+        d = decide_nonnull(test.operand, nonnull)
+        return None if d is None else (not d)
+    if isinstance(test, ast.Compare) and len(test.ops) == 1 and isinstance(test.left, ast.Name) and test.left.id in nonnull:
+        rhs = test.comparators[0]
+        if isinstance(rhs, ast.Constant) and rhs.value is None:
+            if isinstance(test.ops[0], ast.Is):
+                return False
+            if isinstance(test.ops[0], ast.IsNot):
+                return True
+    return None
+
+
 def handler_type_names(h: ast.ExceptHandler) -> list[str] | None:
     if h.type is None:
         return None
@@ -158,6 +173,9 @@ class FaultModel:
         self.resolved_calls = 0
         self.opaque_calls: list[str] = []
         self._rc_cache: dict = {}
+        self._spec_memo: dict = {}
+        self.cfg_factory = None  # set by cfg.Analysis
+        self._nn: frozenset[str] = frozenset()
 
     # -- callee resolution ------------------------------------------------------------------
     def resolve_call(self, c: ast.Call, u: Unit) -> Unit | None | str:
@@ -222,7 +240,8 @@ class FaultModel:
         return False
 
     # -- per statement ----------------------------------------------------------------------
-    def raises(self, st: ast.stmt, u: Unit) -> set[ExcT]:
+    def raises(self, st: ast.stmt, u: Unit, nonnull: frozenset[str] = frozenset()) -> set[ExcT]:
+        self._nn = nonnull
         out: set[ExcT] = set()
         if isinstance(st, ast.Assert):
             return out
@@ -256,12 +275,79 @@ class FaultModel:
 
     def _walk_expr(self, root: ast.AST):
         stack = [root]
+        nn = getattr(self, '_nn', frozenset())
         while stack:
             n = stack.pop()
             yield n
             if isinstance(n, FuncNode + (ast.Lambda, ast.ClassDef)):
                 continue
+            if nn and isinstance(n, ast.IfExp):
+                d = decide_nonnull(n.test, nn)
+                if d is not None:
+                    stack.append(n.test)
+                    stack.append(n.body if d else n.orelse)
+                    continue
             stack.extend(ast.iter_child_nodes(n))
+
+    # -- call-site specialisation on "this argument is definitely not None" ----------------------
+    def nonnull_args(self, c: ast.Call, callee: Unit, u: Unit) -> frozenset[str]:
+        params = callee.params()
+        if params and params[0] in ('self', 'cls') and isinstance(c.func, ast.Attribute):
+            params = params[1:]
+        out: set[str] = set()
+        pairs: list[tuple[str, ast.AST]] = []
+        for i, a in enumerate(c.args):
+            if i < len(params) and not isinstance(a, ast.Starred):
+                pairs.append((params[i], a))
+        for k in c.keywords:
+            if k.arg is not None:
+                pairs.append((k.arg, k.value))
+        for name, a in pairs:
+            if self._definitely_not_none(a, u):
+                out.add(name)
+        return frozenset(out)
+
+    def _definitely_not_none(self, a: ast.AST, u: Unit) -> bool:
+        if isinstance(a, ast.Constant):
+            return a.value is not None
+        if isinstance(a, (ast.Dict, ast.List, ast.Tuple, ast.Set, ast.JoinedStr, ast.DictComp, ast.ListComp, ast.SetComp, ast.Lambda)):
+            return True
+        if isinstance(a, ast.Name):
+            binds = [n for n in own_nodes(u.node) if isinstance(n, (ast.Assign, ast.AnnAssign)) and any(
+                isinstance(t, ast.Name) and t.id == a.id for t in (n.targets if isinstance(n, ast.Assign) else [n.target]))]
+            if len(binds) != 1 or a.id in u.params():
+                return False
+            v = binds[0].value
+            if isinstance(v, (ast.Dict, ast.List, ast.DictComp, ast.ListComp)):
+                return True
+            if isinstance(v, ast.Call):
+                r = self.resolve_call(v, u)
+                if isinstance(r, Unit) and r.node.returns is not None:
+                    txt = U(r.node.returns)
+                    return 'None' not in txt and 'Optional' not in txt and 'Any' not in txt
+            return False
+        return False
+
+    def escape_at_call(self, c: ast.Call, callee: Unit, u: Unit) -> frozenset[ExcT]:
+        nn = self.nonnull_args(c, callee, u)
+        if nn:
+            nn = frozenset(p for p in nn if self._tests_none(callee, p))
+        if not nn or self.cfg_factory is None:
+            return self.escape.get(callee.key, frozenset())
+        key = (callee.key, nn)
+        if key not in self._spec_memo:
+            self._spec_memo[key] = self.escape.get(callee.key, frozenset())  # recursion guard
+            saved = getattr(self, '_nn', frozenset())
+            g = self.cfg_factory(callee, nn)
+            self._nn = saved
+            self._spec_memo[key] = g.escape_set()
+        return self._spec_memo[key]
+
+    def _tests_none(self, callee: Unit, p: str) -> bool:
+        for n in own_nodes(callee.node):
+            if isinstance(n, ast.Compare) and isinstance(n.left, ast.Name) and n.left.id == p and len(n.ops) == 1 and isinstance(n.ops[0], (ast.Is, ast.IsNot)):
+                return True
+        return False
 
     def _inside_asyncio_timeout(self, st: ast.AST) -> bool:
         for a in ancestors(st):
@@ -281,7 +367,7 @@ class FaultModel:
             if r.is_async and not isinstance(parent(c), ast.Await):
                 # coroutine object created, not awaited here (create_task(coro()) / gather) -> raises nothing here
                 return set()
-            return set(self.escape.get(r.key, frozenset()))
+            return set(self.escape_at_call(c, r, u))
         if r == 'opaque':
             self.opaque_calls.append(f'{u.loc(c)} {U(c.func)}(...)')
             return {ANY_EXCEPTION}
@@ -312,7 +398,7 @@ class FaultModel:
     def call_raises_as_awaited(self, c: ast.Call, u: Unit) -> set[ExcT]:
         r = self.resolve_call(c, u)
         if isinstance(r, Unit):
-            return set(self.escape.get(r.key, frozenset()))
+            return set(self.escape_at_call(c, r, u))
         if r == 'opaque':
             return {ANY_EXCEPTION}
         return set()
